@@ -59,6 +59,8 @@ type output struct {
 	Err     string `json:"err,omitempty"`
 	// Unreadable: the join failed because the description file could not be parsed
 	Unreadable bool `json:"unreadable,omitempty"`
+	// Absent: a query found no group of that name in memory (possible only while it has no members)
+	Absent bool `json:"absent,omitempty"`
 }
 
 // state is encoded as a string so that porcupine can compare states with ==.
@@ -194,11 +196,16 @@ func model(cfg config) porcupine.Model {
 			case "unlock":
 				s.locked = false
 				return true, encode(s)
-			case "locked?":
-				return o.Locked == s.locked, st
-			case "count?":
-				return o.Count == len(s.members), st
-			case "members?":
+			case "locked?", "count?", "members?":
+				if o.Absent {
+					return len(s.members) == 0, st
+				}
+				switch i.Op {
+				case "locked?":
+					return o.Locked == s.locked, st
+				case "count?":
+					return o.Count == len(s.members), st
+				}
 				var ids []string
 				for id := range s.members {
 					ids = append(ids, id)
@@ -451,24 +458,37 @@ func runHistory(run *vk.Run, idx uint64) {
 					if g := group.Get(name); g != nil {
 						rec.do(t, input{Op: op}, func() output { g.SetLocked(lock, ""); return output{} })
 					}
+				// queries look the group up INSIDE the recorded interval: a *Group obtained earlier
+				// may by now be an unloaded object that shows what the group was, not what it is
 				case x < 83:
-					if g := group.Get(name); g != nil {
-						rec.do(t, input{Op: "locked?"}, func() output { l, _ := g.Locked(); return output{Locked: l} })
-					}
+					rec.do(t, input{Op: "locked?"}, func() output {
+						g := group.Get(name)
+						if g == nil {
+							return output{Absent: true}
+						}
+						l, _ := g.Locked()
+						return output{Locked: l}
+					})
 				case x < 92:
-					if g := group.Get(name); g != nil {
-						rec.do(t, input{Op: "count?"}, func() output { return output{Count: g.ClientCount()} })
-					}
+					rec.do(t, input{Op: "count?"}, func() output {
+						g := group.Get(name)
+						if g == nil {
+							return output{Absent: true}
+						}
+						return output{Count: g.ClientCount()}
+					})
 				default:
-					if g := group.Get(name); g != nil {
-						rec.do(t, input{Op: "members?"}, func() output {
-							var ids []string
-							for _, c := range g.GetClients(nil) {
-								ids = append(ids, c.Id())
-							}
-							return output{Members: membersString(ids)}
-						})
-					}
+					rec.do(t, input{Op: "members?"}, func() output {
+						g := group.Get(name)
+						if g == nil {
+							return output{Absent: true}
+						}
+						var ids []string
+						for _, c := range g.GetClients(nil) {
+							ids = append(ids, c.Id())
+						}
+						return output{Members: membersString(ids)}
+					})
 				}
 			}
 		}(t)
